@@ -430,7 +430,9 @@ class Extractor:
             return self.expr(n.get("body"))
         if k == "let":
             return self.stmt(n)
-        if k in ("ret", "break"):
+        if k == "ret":
+            return ("retn", self.expr(n.get("x")))
+        if k == "break":
             return self.expr(n.get("x"))
         if k == "path" and (n.get("def") or "").endswith("::None") and False:
             return ("nil",)
@@ -684,6 +686,9 @@ def sym_key(s):
     return s
 
 
+RET = ("retn",)
+
+
 def language(node, inline=None, depth=0, limit=4000):
     """finite set of words (tuples of symbol keys) of a grammar node."""
     if node is None or node == ("nil",):
@@ -691,17 +696,20 @@ def language(node, inline=None, depth=0, limit=4000):
     k = node[0]
     if k == "fail":
         return set()
+    if k == "retn":
+        # an early `return x`: the words of x, terminated (nothing that follows in an enclosing sequence is emitted)
+        return {w + (RET,) if not (w and w[-1] == RET) else w for w in language(node[1], inline, depth, limit)}
     if k == "p" or k == "tag":
         return {(node,)}
     if k == "ref":
         if inline and node[1] in inline and depth < 4:
-            return language(inline[node[1]], inline, depth + 1, limit)
+            return {tuple(x for x in w if x != RET) for w in language(inline[node[1]], inline, depth + 1, limit)}
         return {(node,)}
     if k == "seq":
         words = {()}
         for x in node[1]:
             lx = language(x, inline, depth, limit)
-            words = {a + b for a in words for b in lx}
+            words = {(a if (a and a[-1] == RET) else a + b) for a in words for b in lx}
             if len(words) > limit:
                 raise OverflowError("grammar too large")
         return words
@@ -711,7 +719,7 @@ def language(node, inline=None, depth=0, limit=4000):
             out |= language(x, inline, depth, limit)
         return out
     if k == "star":
-        body = frozenset(fold_tags(w) for w in language(node[1], inline, depth, limit))
+        body = frozenset(fold_tags(tuple(x for x in w if x != RET)) for w in language(node[1], inline, depth, limit))
         body = frozenset(w for w in body if w is not None)
         if body == frozenset({()}):
             return {()}
@@ -764,7 +772,7 @@ def expand_consts(w):
 def words(node, inline=None):
     ws = set()
     for w in language(node, inline):
-        f = fold_tags(w)
+        f = fold_tags(tuple(x for x in w if x != RET))
         if f is not None:
             for e in expand_consts(f):
                 ws.add(e)
